@@ -820,6 +820,41 @@ func (w *world) nodeOp(r *xp.Req, resp *xp.Resp) {
 		resp.Err = errStr(err)
 		resp.Chunks = fs.chunks
 		resp.Emitted = int(h.fs.RocksDBStore.LastWALSequenceNumber())
+	case "node-fetch-concurrent":
+		// r.N followers fetch at once (a returning follower and a new node being restored at the
+		// same time); each gets its own stream; resp.Chunks = first stream's chunks, resp.Args-like
+		// digests of every stream go to resp.DumpHash
+		k := int(r.N)
+		streams := make([]*fakeStream, k)
+		errs := make([]error, k)
+		var wg sync.WaitGroup
+		start := make(chan struct{})
+		for i := 0; i < k; i++ {
+			streams[i] = &fakeStream{}
+			wg.Add(1)
+			go func(i int) {
+				defer wg.Done()
+				<-start
+				errs[i] = n.FetchSnapshot(&consensus.FetchSnapshotRequest{LastAppliedVersion: r.A, StartSeqNum: r.B, EndSeqNum: r.C}, streams[i])
+			}(i)
+		}
+		close(start)
+		wg.Wait()
+		resp.DumpHash = map[string]string{}
+		resp.DumpCount = map[string]int{}
+		for i := 0; i < k; i++ {
+			hs := sha256.New()
+			for _, c := range streams[i].chunks {
+				fmt.Fprintf(hs, "%d:", len(c))
+				hs.Write(c)
+			}
+			key := fmt.Sprintf("stream-%d", i)
+			resp.DumpHash[key] = hex.EncodeToString(hs.Sum(nil))
+			resp.DumpCount[key] = len(streams[i].chunks)
+			if errs[i] != nil {
+				resp.DumpHash[key] = "error: " + errs[i].Error()
+			}
+		}
 	case "node-close":
 		bound := 30
 		if r.N > 0 {
